@@ -36,7 +36,7 @@ type zvC33Case struct {
 }
 
 type zvC33Result struct {
-	FailedAt int    // index of the event at which the run failed (-1: none)
+	FailedAt int // index of the event at which the run failed (-1: none)
 	Clause   string
 	Sig      map[string]string
 	Desc     string
@@ -66,7 +66,7 @@ func zvC33Run(scn string, evs []string, trace bool) zvC33Result {
 		}
 		res.FailedAt, res.Clause, res.Sig, res.Desc = cur, clause, sig, fmt.Sprintf(f, a...)
 	}
-	x := vsched.Exec(vsched.Config{MaxSteps: 400000, Trace: trace, Sites: true}, func() {
+	x := zvExec(vsched.Config{MaxSteps: 400000, Trace: trace, Sites: true}, func() {
 		w := zvIsisNew(false, zvC33Ifs(scn)...)
 		up := map[string]bool{}
 		hellos := 0
@@ -201,7 +201,9 @@ func TestVerifC33(t *testing.T) {
 	}
 	{
 		h := []string{"a:up", "p:up", "a:down", "a:up"}
-		if a, b := zvC33Run("both", h, false), zvC33Run("both", h, false); fmt.Sprintf("%+v", a) != fmt.Sprintf("%+v", b) {
+		a, b := zvC33Run("both", h, false), zvC33Run("both", h, false)
+		a.Desc, b.Desc = "", "" // (stack traces carry addresses)
+		if fmt.Sprintf("%+v", a) != fmt.Sprintf("%+v", b) {
 			r.Fatalf("replaying the same sequence twice gave different results:\n%+v\n%+v", a, b)
 		}
 	}
